@@ -42,9 +42,22 @@ manifest = {
  'not_applicable': [],
  'notes': 'Exit codes: 0 held, 1 violation (VIOLATION line + replay file), 2 harness error. VERIF_SEED selects the base seed; VERIF_TIER is honoured when --tier is absent. known_findings.json lists genuine defects (status known/fixed).',
 }
+sys.path.insert(0, ROOT)
+import importlib
+
+
+def current(pid):
+    """RULE / ASSUMPTIONS as the check itself declares them today (the table above is prose written once)."""
+    m = importlib.import_module('simverif.props.' + pid.lower())
+    return ' '.join(str(m.RULE).split()), '; '.join(' '.join(str(a).split()) for a in m.ASSUMPTIONS)
+
+
 for pid in ALL:
     if pid in CHECKS:
-        c = CHECKS[pid]
+        c = dict(CHECKS[pid])
+        rule, assumptions = current(pid)
+        c['text'] = c['text'] + ' || Exploration rule as declared by the check today: ' + rule
+        c['note'] = c['note'] + ' || Assumptions as declared by the check today: ' + assumptions
         manifest['checks'].append({
             'property_id': pid,
             'quick_cmd': f'./check {pid} --tier quick',
